@@ -40,6 +40,8 @@ def run(ctx):
     seipdv2(ctx, P)
     skesk(ctx, P)
     algorithm_tables(ctx, P)
+    from rules import tables
+    tables.bit_counts_round_up(ctx, P)
     from rules.tables import rfc_id_tables
     rfc_id_tables(ctx, P, only=r'SymmetricKeyAlgorithm|AeadAlgorithm|HashAlgorithm|PublicKeyAlgorithm')
     secret_key_aead(ctx, P)
@@ -320,6 +322,42 @@ def ecdh(ctx, P):
                   missing=None if (sinks and ok) else 'no rejecting comparison of the padding octet itself with 0 on the way to truncate(): `00` as last octet is read as "no padding" and the whole block becomes the key')
         rdom(ctx, P + ':ecdh:unpad-upper-bound', b, sinks, [r'call:.*(::last|::expect)$', r'call:.*::len$|op:PtrMetadata|len'],
              'ECDH unpadding refuses a padding octet larger than the unwrapped block before it truncates')
+        # ... and every padding octet is compared with N (RFC 8018: N octets of value N): the verdict that guards truncate() comes from
+        # an `any` / `all` over the padding, or from a loop variable that ACCUMULATES (is computed from its own previous value) - a loop
+        # that merely assigns `verdict = f(octet)` keeps the verdict of the last octet, which is N itself
+        import callgraph
+        edges = {i: set(j for j, _ in b.succ(i)) for i in range(len(b.blocks)) if not b.blocks[i]['c']}
+        loops = [set(c) for c in callgraph.sccs(edges) if len(c) > 1]
+        good, lastwins = [], []
+        for g in sorted(rejecting):
+            og = b.switch_origins(g)
+            if has_origin(og, r'call:.*Iterator::(any|all)$'):
+                good.append(g)
+                continue
+            # locals feeding the condition that are assigned inside a loop
+            from rules.common import single_defs, resolve_value
+            t = b.blocks[g]['t']
+            seen, work = set(), [t['o']['l']] if 'l' in t['o'] else []
+            while work:
+                L = work.pop()
+                if L in seen:
+                    continue
+                seen.add(L)
+                for x, k, st in b.stmts(lambda st: st['d']['l'] == L and not st['d']['pr']):
+                    for o in st['r'].get('o', ()):
+                        if 'l' in o and not o['pr']:
+                            work.append(o['l'])
+            for L in seen:
+                ins = [(x, st) for x, k, st in b.stmts(lambda st: st['d']['l'] == L and not st['d']['pr']) if any(x in lp for lp in loops)]
+                if not ins or g in [x for lp in loops for x in lp]:
+                    continue
+                selfdep = any(any(o.get('l') == L for o in st['r'].get('o', ())) for x, st in ins)
+                (good if selfdep else lastwins).append(g)
+        every = bool(good) and must_pass(b, sinks, good)[0] if sinks else False
+        ctx.check(P + ':ecdh:unpad-every-octet', 'R-dom', 'ECDH unpadding truncates only after a verdict over EVERY padding octet (any/all over the padding, or an accumulating loop variable)',
+                  every, function=b.path, site=site(b, lastwins[0]) if lastwins else (site(b, sinks[0]) if sinks else None),
+                  missing=None if every else ('the verdict tested at %s is assigned inside a loop without depending on its previous value: only the last octet decides' % site(b, lastwins[0])
+                                              if lastwins else 'no rejecting check of the padding body dominates truncate()'))
     users = sorted(p for p, r in ctx.f.bodies.items() if ctx.wrap(r).calls(r'crypto::ecdh::(kdf|build_ecdh_param)$') and 'ecdh' in p)
     ctx.check(P + ':ecdh:single-derivation', 'R-who', 'ECDH encryption and decryption derive the KEK through the same build_ecdh_param + kdf',
               any(u.endswith('derive_session_key') for u in users) and any(u.endswith('encrypt') for u in users), table=users)
